@@ -25,12 +25,13 @@ TsNone  == [k |-> "none", v |-> Zero4]
 TsTaint == [k |-> "taint", v |-> Zero4]
 TsVal(v) == IF v = Zero4 THEN TsTaint ELSE [k |-> "val", v |-> v]
 
-AccZero == [a |-> Zero4, l |-> 0]
+AccZero == [a |-> Zero4, l |-> 0, bad |-> FALSE]
 AccsZero == [dist |-> AccZero, cyc |-> AccZero, pow |-> AccZero]
 
 \* running sum of rollover-corrected deltas: a' = a + ((v - last) mod 2^bits)
 Accumulate(acc, v, bits) ==
-    LET d == ((v - acc.l) + 65536) % (2 ^ bits) IN [a |-> U32AddSmall(acc.a, d), l |-> v]
+    LET d == ((v - acc.l) + 65536) % (2 ^ bits) IN [a |-> U32AddSmall(acc.a, d), l |-> v, bad |-> acc.bad]
+Taint(acc) == [acc EXCEPT !.bad = TRUE]
 
 CrcRange(r, in, a, b) == IF a > b THEN r ELSE FoldLeft(LAMBDA x, y : TabStep(x, y), r, SubSeq(in, a, b))
 
@@ -169,9 +170,13 @@ Enhance == [ m \in {18, 19, 20, 142} |->
                [] m = 18  -> << <<14, 124>>, <<15, 125>>, <<49, 126>>, <<50, 128>>, <<71, 127>> >>
                [] m = 142 -> << <<34, 91>>, <<35, 92>>, <<54, 93>> >> ]
 
+Skipped(x, m, n) == HasField(m, n) /\ S(m, n) \in x.skip
+
 ApplyEnhance(m, r, explicit) ==
     FoldLeft(LAMBDA x, pr :
-               IF Has(x.msg, m, pr[1]) /\ HasField(m, pr[2])
+               IF ~HasField(m, pr[1]) \/ ~HasField(m, pr[2]) THEN x
+               ELSE IF Skipped(x, m, pr[1]) THEN [x EXCEPT !.skip = @ \cup {S(m, pr[2])}]   \* unpinned source
+               ELSE IF Has(x.msg, m, pr[1])
                THEN IF pr[2] \in explicit /\ Has(x.msg, m, pr[2]) /\ x.msg[S(m, pr[2])] # ZeroExt(x.msg[S(m, pr[1])], 4)
                     THEN [x EXCEPT !.skip = @ \cup {S(m, pr[2])}]
                     ELSE [x EXCEPT !.msg = Put(@, S(m, pr[2]), ZeroExt(x.msg[S(m, pr[1])], 4))]
@@ -199,10 +204,12 @@ ExpandRecord(r0, explicit, accs) ==
         r3  == IF doCyc THEN [r2 EXCEPT !.msg = Put(@, S(20, 19), acC.a),
                                         !.skip = @ \cup (IF 19 \in explicit THEN {S(20, 19)} ELSE {})]
                ELSE r2
+        skPow == Skipped(r3, 20, 28)
         doPow == Has(r3.msg, 20, 28)
-        acP == IF doPow THEN Accumulate(accs.pow, U16(r3.msg[S(20, 28)]), 16) ELSE accs.pow
-        r4  == IF doPow THEN [r3 EXCEPT !.msg = Put(@, S(20, 29), acP.a),
-                                        !.skip = @ \cup (IF 29 \in explicit THEN {S(20, 29)} ELSE {})]
+        acP == IF skPow THEN Taint(accs.pow) ELSE IF doPow THEN Accumulate(accs.pow, U16(r3.msg[S(20, 28)]), 16) ELSE accs.pow
+        r4  == IF skPow THEN [r3 EXCEPT !.skip = @ \cup {S(20, 29)}]
+               ELSE IF doPow THEN [r3 EXCEPT !.msg = Put(@, S(20, 29), acP.a),
+                                        !.skip = @ \cup (IF 29 \in explicit \/ acP.bad THEN {S(20, 29)} ELSE {})]
                ELSE r3
     IN  [r |-> r4, accs |-> [dist |-> acD, cyc |-> acC, pow |-> acP],
          raw |-> [csd |-> doCsd, d12 |-> d12, b2 |-> IF doCsd THEN csd[3] ELSE 0, b1 |-> IF doCsd THEN csd[2] ELSE 0,
@@ -212,10 +219,13 @@ ExpandRecord(r0, explicit, accs) ==
 \* event (21): data16(2) -> data(3); data(3) -> by event(0):
 \*   sport_point(33): score(7), opponent_score(8) (16 bits each)
 \*   front/rear_gear_change(42, 43): rear_gear_num(11), rear_gear(12), front_gear_num(9), front_gear(10)
+EventDests == {3, 7, 8, 9, 10, 11, 12}
 ExpandEvent(r0, explicit) ==
+    IF Skipped(r0, 21, 2) \/ Skipped(r0, 21, 3) THEN [r0 EXCEPT !.skip = @ \cup { S(21, n) : n \in EventDests }]
+    ELSE
     LET r1 == IF Has(r0.msg, 21, 2)
               THEN IF 3 \in explicit /\ Has(r0.msg, 21, 3) /\ r0.msg[S(21, 3)] # ZeroExt(r0.msg[S(21, 2)], 4)
-                   THEN [r0 EXCEPT !.skip = @ \cup {S(21, 3), S(21, 7), S(21, 8), S(21, 9), S(21, 10), S(21, 11), S(21, 12)}]
+                   THEN [r0 EXCEPT !.skip = @ \cup { S(21, n) : n \in EventDests }]
                    ELSE [r0 EXCEPT !.msg = Put(@, S(21, 3), ZeroExt(@[S(21, 2)], 4))]
               ELSE r0
         hasD == Has(r1.msg, 21, 3)
